@@ -42,11 +42,11 @@ theorem C11_partial_conservative_key (cfg : Cfg) (fs : FS) (nd : Bool) (ftp : Li
     rewriteKeyJ cfg fs nd ftp kc = rewriteKey cfg fs kc :=
   rewriteKeyJ_eq (h.elim Or.inl fun h => Or.inr (Or.inl h))
 
-/-- A source dir whose own name starts with '.' disables the lookup altogether: `filter_entry`
-rejects the depth-0 entry, nothing is walked, and (the source dir existing) the report is that of
-`rewritePaths`. -/
+/-- A source dir whose own name starts with '.' (and that is not itself a symbolic link:
+`rootPruned`) disables the lookup altogether: `filter_entry` rejects the depth-0 entry, nothing is
+walked, and (the source dir existing) the report is that of `rewritePaths`. -/
 theorem C11_partial_hidden_root (cfg : Cfg) (fs : FS) (ord : List (List Bytes)) (m : List (Bytes × Cov))
-    (s : Bytes) (hS : cfg.sourceDir = some s) (hroot : hidden (rootName s) = true)
+    (s : Bytes) (hS : cfg.sourceDir = some s) (hroot : rootPruned fs s = true)
     (hex : (fs.resolve s).isSome = true) :
     rewritePathsJ cfg fs ord m = rewritePaths cfg fs m := by
   apply rewritePathsJ_eq_rewritePaths
@@ -111,7 +111,7 @@ hidden file is skipped), whose name is the last `\`- or `/`-separated piece of s
 match no `--ignore` glob. -/
 theorem C11_partial_candidates (cfg : Cfg) (fs : FS) (ord : List (List Bytes)) (keys : List Bytes)
     (s : Bytes) (S : List Bytes) (hS : cfg.sourceDir = some s) (hres : fs.resolve s = some (S, .dir))
-    (hroot : hidden (rootName s) = false) (n c : Bytes) :
+    (hroot : rootPruned fs s = false) (n c : Bytes) :
     c ∈ candidatesFor fs ord cfg keys n ↔
       ∃ rel, S ++ rel ∈ ord ∧ c = join rel ∧ rel.getLast? = some n ∧
         (∀ x ∈ rel, hidden x = false) ∧ isPartialExtName n = true ∧
@@ -154,7 +154,7 @@ source-relative path. -/
 theorem C11_partial_unique_candidate (cfg : Cfg) (fs : FS) (ord : List (List Bytes)) (keys : List Bytes)
     (s : Bytes) (S : List Bytes) (key n : Bytes) (rel : List Bytes)
     (hS : cfg.sourceDir = some s) (hres : fs.resolve s = some (S, .dir))
-    (hroot : hidden (rootName s) = false) (hnd : needed cfg fs keys = true)
+    (hroot : rootPruned fs s = false) (hnd : needed cfg fs keys = true)
     (hext : isPartialExt (keyPath cfg key) = true) (hn : fileName (keyPath cfg key) = some n)
     (hord : ord.Nodup) (hmem : S ++ rel ∈ ord) (hc : IsCandidate fs cfg keys S rel n)
     (huniq : ∀ rel', S ++ rel' ∈ ord → IsCandidate fs cfg keys S rel' n → rel' = rel) :
@@ -169,7 +169,7 @@ theorem C11_partial_unique_reported (cfg : Cfg) (fs : FS) (ord : List (List Byte
     (hsn : ∀ x ∈ sn, RealName x) (hrel : ∀ x ∈ rel, RealName x) (hbs : ∀ x ∈ rel, 92 ∉ x)
     (hS : cfg.sourceDir = some (render ⟨true, sn⟩))
     (hres : fs.resolve (render ⟨true, sn⟩) = some (sn, .dir))
-    (hroot : hidden (rootName (render ⟨true, sn⟩)) = false)
+    (hroot : rootPruned fs (render ⟨true, sn⟩) = false)
     (hkey : (cfg.mapping.isSome && (bsl key).isEmpty) = false)
     (hnd : needed cfg fs keys = true)
     (hext : isPartialExt (keyPath cfg key) = true) (hn : fileName (keyPath cfg key) = some n)
@@ -428,7 +428,7 @@ found in a duplicate-free walk, for a clean source dir that resolves to a direct
 example : IsCandidate pwFS { pwCfg with ignore := pwG } (pwMap.map (·.1)) [[115]]
       [[98], [121], [70, 111, 111, 46, 106, 97, 118, 97]] [70, 111, 111, 46, 106, 97, 118, 97] ∧
     pwOrd.Nodup ∧ pwFS.resolve (render ⟨true, [[115]]⟩) = some ([[115]], .dir) ∧
-    hidden (rootName (render ⟨true, [[115]]⟩)) = false ∧
+    rootPruned pwFS (render ⟨true, [[115]]⟩) = false ∧
     pwFS.resolve (render ⟨true, [[115]] ++ [[98], [121], [70, 111, 111, 46, 106, 97, 118, 97]]⟩) =
       some ([[115]] ++ [[98], [121], [70, 111, 111, 46, 106, 97, 118, 97]], .file) ∧
     (∀ x ∈ [[98], [121], [70, 111, 111, 46, 106, 97, 118, 97]], 92 ∉ x) := by
